@@ -16,7 +16,7 @@ def snap(path):
 def run(ctx):
     rng = ctx.rng
     modes = drv.QUICK_MODES if ctx.quick else drv.ALL_MODES
-    n = 240 if ctx.quick else 6000
+    n = 1200 if ctx.quick else 12000
     ctx.rule = ("case = (mode, entry point [link_to / link_to_hash / ToLinker::open(+partial reads) / WriteOpts::link_to "
                 "with size+integrity options], target length in {0,1,16KiB-1,16KiB,16KiB+1,100KiB}, absolute or "
                 "relative target path with the driver chdir'ed next to the target or elsewhere, partial reads of "
